@@ -168,7 +168,8 @@ def corrupt_future(cases):
 
 def future_step(ctx, drifts):
     """Growth (DESIGN section 8): pushed blocks the node cannot import yet - FutureBlocks.tla + Trace_FutureBlocks.tla."""
-    ctx.tlc_must_hold("net", "MC_FutureBlocks", cfg="MC_FutureBlocks.cfg", workers=4, timeout=900, label="future blocks: design model")
+    ctx.tlc_must_hold("net", "MC_FutureBlocks", cfg="MC_FutureBlocks.cfg" if ctx.quick else "MC_FutureBlocks_thorough.cfg", workers=4,
+                      timeout=900, label="future blocks: design model")
     r = ctx.tlc("net", "MC_FutureBlocks", cfg="MC_FutureBlocks_unsorted.cfg", workers=4, timeout=600, count=False,
                 label="future blocks NEGATIVE: retry round in any order")
     if r.timeout or "RoundComplete is violated" not in r.out:
@@ -176,7 +177,8 @@ def future_step(ctx, drifts):
     events, st = sc.run_driver(ctx, "syncsim", ["-mode", "future"] + ([] if ctx.quick else ["-deep"]), "future", timeout=600)
     if events is None:
         return 0
-    sc.binding_demo(ctx, events, "future", corrupt_future, module="Trace_FutureBlocks")
+    sc.binding_demo(ctx, events, "future", lambda cs: [v for v in corrupt_future(cs) if not ctx.quick or "refused" not in v[0]],
+                    module="Trace_FutureBlocks")
     acc, d = sc.validate(ctx, events, "future", {"driver": "syncsim", "mode": "future", "seed": ctx.seed}, module="Trace_FutureBlocks")
     drifts += d
     fu = st["future"]
